@@ -269,6 +269,13 @@ func runChild(jobPath string) {
 		forceClose := func() {
 			res.NeededClose = true
 			res.Sleeping, res.BlockedIn = whereBlocked()
+			// a client that is still issuing requests (a live / low-latency playlist reloaded over and over: the stub
+			// answers at once) is not stalled, even if the one goroutine dump happens to catch it between two downloads
+			tr.mu.Lock()
+			if tr.total != lastReq {
+				res.Sleeping = true
+			}
+			tr.mu.Unlock()
 			t0 := time.Now()
 			c.Close()
 			select {
